@@ -444,52 +444,53 @@ func (p *concProbe) Emit(ctx context.Context) (int, error) {
 // case description
 
 type concCase struct {
-	op       string
-	c        int    // concurrency
-	n        int    // source length
-	size     int    // Buffered size
-	sync     bool   // choices in quiescent states only
-	mg       bool   // mapper / concurrent-consume callback gated
-	cg       bool   // sequential consumer callback gated
-	sg       bool   // source Emit gated
-	yield    int    // slow source
-	limit    int    // Limit(k) wrapper (0 = none)
-	first    bool   // FindFirst
-	cf       int    // sequential consumer fails on its k-th call (1-based, 0 = never)
-	mf       int    // mapper (or concurrent-consume callback) fails for element i (-1 = never)
-	mp       int    // mapper (or concurrent-consume callback) panics for element i (-1 = never)
-	se       int    // source Emit call index that fails (-1 = never)
-	park     int    // source Emit call index that parks until ctx.Done (-1 = never)
-	cancel   int    // cancel the caller ctx before the t-th scheduler action (-1 = never)
-	reads    int    // pipe: chunks the consumer reads before returning (-1 = to EOF)
-	filt     string // "" | "d7": gated Filter that cancels inside its 2nd call (D7/D24 recipe)
-	trials   int    // repeat the (racy) case this many times and count outcomes
-	script   []int
-	child    bool   // run in a re-exec'd child process (the case may crash the process)
-	ofail    string // "" | "err" | "panic": a lifecycle element placed AFTER the async stage whose Open fails
-	dl       bool   // the caller's context ends by its DEADLINE (ctx.Err() = context.DeadlineExceeded) instead of a cancel call
-	mwf      bool   // the stage is MapWhileFilteringWithErrAndCtx with the concurrent option: the mapper filters elements i with i%3 == 1 out (nil)
-	cbms     int    // every concurrent-consume callback takes this many milliseconds (workers busy and the item channel full for long)
-	slowhold int    // the environment keeps a cancelled, slow-to-return Emit call inside the provider for this many ms (longer than any grace period)
-	sofail   bool   // the SOURCE provider's Open fails (the asynchronous stage has nothing to read: no reader may be waited for)
-	osat     bool   // the failing Open waits until the stage has saturated (the source is no longer pulled: workers hold results nobody takes)
-	rep      int    // materialise the SAME stream value this many times (>= 1)
-	slowat   int    // source Emit call index that takes `slowms` milliseconds before it returns (-1 = none): a quiet source
-	slowms   int
-	ptr      bool   // concurrent map to a POINTER type whose mapper returns nil for elements i with i%3 == 1
-	over     string // ccons: "cmap" = the concurrently consumed stream is itself a concurrent map (identity mapper) over the source
-	cwait    bool   // pipe: after its reads the consumer waits on ITS context (it does not read on): a failing stream must end it
-	tail     bool   // the asynchronous stage is the SECOND inner stream of ConcatStreams(empty, stage): opened from emit, under the caller's ctx
-	twice    bool   // the source is ConcatStreams(probe stream, probe stream): one provider, two open windows in a row
-	outerr   bool   // the source is Concat(stream of streams): the outer stream yields the probe stream, then fails
-	ctxbound bool   // concurrent-consume callbacks (other than the failing one) run until THEIR ctx is cancelled
-	ign      bool   // gated callbacks do not look at their ctx: they return (nil) only when the environment releases them
-	nowait   bool   // histories: start the next materialisation right after the previous terminal returned
-	cerr     bool   // pipe: the consumer returns an error (instead of nil) after its reads
-	lcx      int    // extra (no-op) lifecycle elements added on top of the source provider (WithAdditionalLifecycle)
-	bare     bool   // the source is a bare provider function (NewSimpleStream(f), no lifecycle elements: no Open, no Close)
-	slowret  int    // ms the parked Emit call needs to return after its ctx was cancelled
-	lastfull bool   // the last materialisation runs without early stop / failure / cancel / park: it must deliver everything
+	op        string
+	c         int    // concurrency
+	n         int    // source length
+	size      int    // Buffered size
+	sync      bool   // choices in quiescent states only
+	mg        bool   // mapper / concurrent-consume callback gated
+	cg        bool   // sequential consumer callback gated
+	sg        bool   // source Emit gated
+	yield     int    // slow source
+	limit     int    // Limit(k) wrapper (0 = none)
+	first     bool   // FindFirst
+	cf        int    // sequential consumer fails on its k-th call (1-based, 0 = never)
+	mf        int    // mapper (or concurrent-consume callback) fails for element i (-1 = never)
+	mp        int    // mapper (or concurrent-consume callback) panics for element i (-1 = never)
+	se        int    // source Emit call index that fails (-1 = never)
+	park      int    // source Emit call index that parks until ctx.Done (-1 = never)
+	cancel    int    // cancel the caller ctx before the t-th scheduler action (-1 = never)
+	reads     int    // pipe: chunks the consumer reads before returning (-1 = to EOF)
+	filt      string // "" | "d7": gated Filter that cancels inside its 2nd call (D7/D24 recipe)
+	trials    int    // repeat the (racy) case this many times and count outcomes
+	script    []int
+	child     bool   // run in a re-exec'd child process (the case may crash the process)
+	ofail     string // "" | "err" | "panic": a lifecycle element placed AFTER the async stage whose Open fails
+	dl        bool   // the caller's context ends by its DEADLINE (ctx.Err() = context.DeadlineExceeded) instead of a cancel call
+	mwf       bool   // the stage is MapWhileFilteringWithErrAndCtx with the concurrent option: the mapper filters elements i with i%3 == 1 out (nil)
+	cbms      int    // every concurrent-consume callback takes this many milliseconds (workers busy and the item channel full for long)
+	slowhold  int    // the environment keeps a cancelled, slow-to-return Emit call inside the provider for this many ms (longer than any grace period)
+	sofail    bool   // the SOURCE provider's Open fails (the asynchronous stage has nothing to read: no reader may be waited for)
+	osat      bool   // the failing Open waits until the stage has saturated (the source is no longer pulled: workers hold results nobody takes)
+	rep       int    // materialise the SAME stream value this many times (>= 1)
+	slowat    int    // source Emit call index that takes `slowms` milliseconds before it returns (-1 = none): a quiet source
+	slowms    int
+	ptr       bool   // concurrent map to a POINTER type whose mapper returns nil for elements i with i%3 == 1
+	over      string // ccons: "cmap" = the concurrently consumed stream is itself a concurrent map (identity mapper) over the source
+	cwait     bool   // pipe: after its reads the consumer waits on ITS context (it does not read on): a failing stream must end it
+	tail      bool   // the asynchronous stage is the SECOND inner stream of ConcatStreams(empty, stage): opened from emit, under the caller's ctx
+	twice     bool   // the source is ConcatStreams(probe stream, probe stream): one provider, two open windows in a row
+	outerr    bool   // the source is Concat(stream of streams): the outer stream yields the probe stream, then fails
+	ctxbound  bool   // concurrent-consume callbacks (other than the failing one) run until THEIR ctx is cancelled
+	ign       bool   // gated callbacks do not look at their ctx: they return (nil) only when the environment releases them
+	nowait    bool   // histories: start the next materialisation right after the previous terminal returned
+	cerr      bool   // pipe: the consumer returns an error (instead of nil) after its reads
+	lcx       int    // extra (no-op) lifecycle elements added on top of the source provider (WithAdditionalLifecycle)
+	bare      bool   // the source is a bare provider function (NewSimpleStream(f), no lifecycle elements: no Open, no Close)
+	slowret   int    // ms the parked Emit call needs to return after its ctx was cancelled
+	firstfull bool   // the FIRST materialisation runs without early stop / failure / cancel / park (it reads the stream to its end)
+	lastfull  bool   // the last materialisation runs without early stop / failure / cancel / park: it must deliver everything
 }
 
 func parseConcCase(text string) (*concCase, error) {
@@ -591,6 +592,8 @@ func parseConcCase(text string) (*concCase, error) {
 			cc.slowret = atoi()
 		case "lastfull":
 			cc.lastfull = v == "1"
+		case "firstfull":
+			cc.firstfull = v == "1"
 		case "rep":
 			cc.rep = atoi()
 			if cc.rep < 1 {
@@ -1314,9 +1317,21 @@ func concRunOnce(cc *concCase) concObs {
 			r.lastFrom = len(r.deliv)
 			r.mu.Unlock()
 		}
+		if cc.firstfull && cc.rep > 1 {
+			if i == 0 {
+				// the first materialisation is a plain complete run of the same stream value
+				full := *cc
+				full.limit, full.first, full.cf, full.mf, full.mp, full.se, full.park, full.cancel = 0, false, 0, -1, -1, -1, -1, -1
+				r.cc = &full
+				r.src.parkAt, r.src.errAt = -1, -1
+			} else if i == 1 {
+				r.cc = cc
+				r.src.parkAt, r.src.errAt = cc.park, cc.se
+			}
+		}
 		cl := r.materialise(root, rootCancel, &obs)
 		classes = append(classes, cl)
-		if i > 0 {
+		if i > 0 && !(cc.firstfull && i == 1) {
 			r.src.releaseSlow() // a reader left behind by an earlier materialisation has met this one by now
 		}
 		if cl == "hang" {
